@@ -153,6 +153,8 @@ def r_transform(ck: Checker) -> None:
     ck.add("projection is applied to every symbolic atom", ok, pu, pu.node, f"`{fmt(calls[0]) if calls else None}`", "F4: a predicate must be renamed at every occurrence or not at all")
     outer = ck.func(f"{CLS}.project_unused")
     oc = resolved_calls(ck.prg, outer, f"ngo.{CLS}._project_unused_stm")
+    if not oc and pu is outer:
+        oc = calls  # the per-statement helper was folded into the loop: the projection itself is the site
     ck.need(len(oc) == 1, "project_unused projects statements at one site")
     lp = enclosing_loop(outer, oc[0])
     okk, n = every_iteration_reaches(ck, outer, lp, oc[0], None) if lp is not None else (False, 0)
